@@ -854,6 +854,9 @@ func Chan(ctx context.Context, args ...object.Object) object.Object {
 			return object.TypeErrorf("type error: chan() expected an int (%s given)", arg.Type())
 		}
 	}
+	if size < 0 {
+		return object.Errorf("value error: chan() size must be >= 0 (%d given)", size)
+	}
 	return object.NewChan(size)
 }
 
